@@ -443,6 +443,7 @@ pub fn replay(doc: &Value) -> i32 {
 
 pub fn main(env: &Env) -> i32 {
     let mut rep = Report::new("C15", if env.thorough { "exploration" } else { "fault_enumeration" }, env);
+    rep.expected_probes = vec!["fired.short_once", "fired.interrupted", "fired.hard_sticky", "fired.hard_transient", "fired.write_zero", "fired.disk_full", "fired.capped_calls", "probe.fault_inside_padding_write", "probe.fault_on_first_call", "probe.fault_on_last_call", "probe.fault_split_a_4_byte_field", "probe.first_fault_in.header", "probe.first_fault_in.classes", "probe.first_fault_in.pad1", "probe.first_fault_in.members", "probe.first_fault_in.pad2", "probe.first_fault_in.by_params", "probe.first_fault_in.pad3", "probe.first_fault_in.strings", "outcome.ok", "outcome.err_write_zero", "outcome.err_other", "mappings_with_padding"];
     rep.stubs = vec!["SimSink (the std::io::Write sink): chunk cap, short-once, Interrupted, hard error sticky/transient, Ok(0), disk-full".into()];
     rep.assumptions = vec![
         "the sink obeys the Write contract (reports exactly the bytes it accepted)".into(),
